@@ -186,6 +186,7 @@ class Equiv:
     def prep(self, term):
         t = strip_all(term)
         if self.run is not None:
+            t = rewrite(t, inline_new_module_vars(self.run))
             t = rewrite(t, canon_repo_calls(self.run))
         for rw in self.rewrites:
             t = rewrite(t, rw)
@@ -510,6 +511,49 @@ def path_refine(tree, guards=()):
 
 
 # --------------------------------------------------------------------------- module-level constants
+def inline_new_module_vars(r):
+    """A module-level name that did not exist on the tree the rules were validated on (a constant table extracted by a refactoring) is read
+    through: it stands for the expression it is bound to.  Names that some function rebinds (``global``) are left alone."""
+    from .ssa import Ctx, Evaluator
+    P = r.P
+    base = BASELINE_VOCAB.get("__module_vars__")
+    cache = r.__dict__.setdefault("_modvar_terms", {}) if hasattr(r, "__dict__") else {}
+    rebound = cache.get("__rebound__")
+    if rebound is None:
+        import ast as _ast
+        rebound = set()
+        for f in P.functions.values():
+            for n in _ast.walk(f.node):
+                if isinstance(n, _ast.Global):
+                    rebound.update(f"{f.module}.{name}" for name in n.names)
+        cache["__rebound__"] = rebound
+
+    def term_of(q, depth=0):
+        if q in cache:
+            return cache[q]
+        cache[q] = None
+        modname = q.rsplit(".", 1)[0]
+        try:
+            ev = Evaluator(P, modname, None, "modvar")
+            ev.scopes.append({"locals": set(), "globals": set()})
+            t = strip_all(ev.ev(P.module_vars[q], {}, Ctx()))
+        except (AnalysisBroken, KeyError, AttributeError, TypeError):
+            return None
+        if depth < 4:
+            t = rewrite(t, lambda x: (term_of(x[1], depth + 1) or x) if head(x) == "glob" and want(x[1]) else x)
+        cache[q] = t
+        return t
+
+    def want(q):
+        return base is not None and q in P.module_vars and q not in base and q not in rebound
+
+    def rw(t):
+        if head(t) == "glob" and want(t[1]):
+            return term_of(t[1]) or t
+        return t
+    return rw
+
+
 def fold_module_consts(P, limit=40):
     """A module-level name bound once to a small literal collection (or a set()/tuple()/list()/sorted() of one) is that literal."""
     from .constfold import NotConstant, module_const
@@ -575,6 +619,33 @@ def baseline_functions(r):
     """Repository functions that existed on the tree the rules were validated on (helpers introduced later are inlined)."""
     base = set(BASELINE_VOCAB.get("__functions__", []))
     return {q for q in r.P.functions if q in base}
+
+
+def baseline_owners(r, q, _seen=None):
+    """The functions of the validated tree on whose behalf ``q`` runs: q itself when it existed then, otherwise the (transitive) callers of a
+    helper introduced later - such a helper is read as part of each of its callers."""
+    base = BASELINE_VOCAB.get("__functions__")
+    if base is None or q in base:
+        return {q}
+    seen = _seen if _seen is not None else set()
+    if q in seen:
+        return set()
+    seen.add(q)
+    owners = set()
+    short = q.rsplit(".", 1)[1]
+    for fq, fn in r.P.functions.items():
+        if fq == q:
+            continue
+        try:
+            s = r.A.summary(fq)
+        except AnalysisBroken:
+            continue
+        for e in s.events_of("call"):
+            f = strip(strip(e["term"])[1])
+            if (head(f) == "glob" and f[1] == q) or (head(f) == "attr" and f[2] == short and fn.cls and r.P.find_method(fn.cls, short) == q):
+                owners |= baseline_owners(r, fq, seen)
+                break
+    return owners or {q}
 
 
 def inline_new_helpers(r, term, cls=None):
